@@ -292,6 +292,7 @@ class BCE(_PairLoss):
     mod = "BCELoss"
     pdom = dict(lo=0, hi=1, lo_strict=True, hi_strict=True)
     tdom = dict(lo=0, hi=1)
+    t_differentiable = True      # the loss is affine in the target: a target that requires grad receives log((1-p)/p) * g
 
     def epsilon_zero(self):
         return True
@@ -306,6 +307,7 @@ class BCEWithLogits(_PairLoss):
     fname = "binary_cross_entropy_with_logits"
     mod = "BCEWithLogitsLoss"
     tdom = dict(lo=0, hi=1)
+    t_differentiable = True      # d/dt = -x
     compare_exp = True
 
     def epsilon_zero(self):
